@@ -104,6 +104,16 @@ CHECKS['C16'] = (
     'same scanner as C08; the generating syntax tree is the oracle for spaced documents',
     '3/C16')
 
+CHECKS['C07'] = (
+    'differential strict vs tolerant over enumerated/random/mutated strings + systematic single-closer fault injection into generated documents, closers-only aligner',
+    '(1) on every enumerated/random/mutated string and generated document where strict parsing succeeds, tolerant '
+    'parsing must give the identical tree and text; (2) every closer (group/argument/name-group brace, last argument '
+    'bracket, \\end{name}) of generated documents without math/verbatim/list regions is deleted in turn: strict must '
+    'reject with a documented error, tolerant must return; (3) every tolerant success on in-domain strings is aligned '
+    'against its input allowing only inserted closers. Exploration (exhaustive within the enumeration bounds).',
+    'C08 side conditions (lexical scanner) for sub-check 3; truncations are judged only when tolerant parsing returns',
+    '3/C07')
+
 PENDING = {}
 
 
